@@ -1,4 +1,5 @@
 import N0Verif.Proofs.XPathSelect2
+import N0Verif.Proofs.XPathSelect3
 /-!
 # C06 — wildcard and predicate steps select exactly the matching elements, in order
 
@@ -17,7 +18,12 @@ returns to, a predicate on an empty list is a miss).
 What is proved: `C06_star`, `C06_pred` (= `C06_star_stmt`, `C06_pred_stmt`: the record list at ANY position of
 the tree, canonical path `P`), the `…_partial` theorems for `P` = a plain key of the root written without the
 leading `/`, `C06_star_spelled` (any spelling of `P`), and chained selections `C06_chained`
-(= `C06_chained_stmt`: the nested list of per-parent selections).  No statement is left open.
+(= `C06_chained_stmt`: the nested list of per-parent selections).  For EVERY spelling of `P` (prefix none / `/` /
+`//`, `][` or `]/[`, `a[i]` or `a/[i]`, an index as `i`, `-k`, `last()`, `last()-k`, `i+j`): `C06_pred_spelled`,
+`C06_chained_spelled` (token level) and `C06_star_spellings_string`, `C06_pred_spellings_string`,
+`C06_chained_spellings_string` (string level).
+`first` on a chained selection: `C06_chained_first`, `C06_chained_first_cases`.  An inner `items` that is ONE dict
+record instead of a list of records: `C06_chained_hidden`, `C06_chained_hidden_flat`.  No statement is left open.
 -/
 namespace N0.C06
 open N0 N0.Py N0.Val N0.XPath
@@ -496,6 +502,365 @@ theorem C06_text_form_equiv_partial (cls : Cls) (kvs : List (Str × Val)) (name 
   have hP := h xpP (by simp [xpP])
   exact ⟨hT.1.trans hP.1.symm, hT.2.1.trans hP.2.1.symm, hT.2.2.trans hP.2.2.symm⟩
 
+
+/-! ## every spelling of `P`; `first` on chained selections; an inner `items` that is one record -/
+
+/-- `return_lists=False`: a single selected value stands for itself, anything else is the list -/
+def single (vals : List Val) : Val :=
+  match vals with
+  | [x] => x
+  | xs => .list .n0 xs
+
+theorem collect_true (vals : List Val) : collect true vals = .list .n0 vals := rfl
+
+theorem collect_false (vals : List Val) : collect false vals = single vals := by
+  match vals with
+  | [] => rfl
+  | [x] => rfl
+  | x :: y :: r => simp [collect, single]
+
+/-- what one outer record's `items` value contributes to `…/items[k2 op v2]/f`: a LIST of records contributes the
+list of its selected values (under `return_lists=False`, i.e. `first`: `single` of it), nothing when that is
+empty; ONE dict record (the library's "hidden list") contributes its own `f`, un-listed, when it passes the
+test; anything else nothing -/
+def innerSelG (rl : Bool) (k2 f : Str) (test2 : Val → Bool) : Val → Option Val
+  | .list _ xs =>
+    if (selectWhere k2 f test2 xs).isEmpty then Option.none
+    else some (if rl then .list .n0 (selectWhere k2 f test2 xs) else single (selectWhere k2 f test2 xs))
+  | .dict c kvs => (selectWhere k2 f test2 [.dict c kvs]).head?
+  | _ => Option.none
+
+/-- the per-parent contributions of a chained selection, in order (`rl` = `return_lists`) -/
+def selectChainedG (rl : Bool) (k1 items : Str) (test1 : Val → Bool) (k2 f : Str) (test2 : Val → Bool) (rs : List Val) : List Val :=
+  (selectWhere k1 items test1 rs).filterMap (innerSelG rl k2 f test2)
+
+/-- `items`, where an outer record has it, is a list of dict records or one dict record -/
+def InnerRecs (items k2 v2 : Str) (rs : List Val) : Prop :=
+  ∀ c kvs' x, Val.dict c kvs' ∈ rs → lookup items kvs' = some x →
+    (∃ lc xs, x = .list lc xs ∧ (∀ y ∈ xs, isDict y = true) ∧ ComparableK k2 v2 xs) ∨
+    (∃ c2 kvs2, x = .dict c2 kvs2 ∧ ComparableK k2 v2 [x])
+
+theorem InnerLists.recs {items k2 v2 : Str} {rs : List Val} (h : InnerLists items k2 v2 rs) : InnerRecs items k2 v2 rs :=
+  fun c kvs' x hm hl => Or.inl (h c kvs' x hm hl)
+
+theorem InnerRecs.ok {items k2 v2 : Str} {rs : List Val} (h : InnerRecs items k2 v2 rs) : Sel3InnerOK items k2 (.str v2) rs := by
+  intro c kvs' x hm hl
+  rcases h c kvs' x hm hl with ⟨lc, xs, rfl, hds, hcmp⟩ | ⟨c2, kvs2, rfl, hcmp⟩
+  · exact Or.inl ⟨lc, xs, rfl, hds, hcmp.guard⟩
+  · exact Or.inr ⟨c2, kvs2, rfl, fun kv hkv => hcmp.guard c2 kvs2 kv (by simp) hkv⟩
+
+theorem chainedG_head (rl : Bool) (k1 op1 : Str) (v1 : CondVal) (items k2 f op2 : Str) (v2 : CondVal) (r : Val) :
+    (selectWhere k1 items (condTest op1 v1) [r]).filterMap (innerSelG rl k2 f (condTest op2 v2))
+      = (sel2Gate k1 op1 v1 r (sel3Inner items k2 f op2 v2 rl r)).toList := by
+  cases r with
+  | dict c kvs =>
+    cases hk : lookup k1 kvs with
+    | none => simp [sel2Gate, selectWhere, hk]
+    | some kv =>
+      cases ht : condTest op1 v1 kv with
+      | false => cases hi : lookup items kvs <;> simp [sel2Gate, selectWhere, hk, ht, hi]
+      | true =>
+        cases hi : lookup items kvs with
+        | none => simp [sel2Gate, sel3Inner, selectWhere, hk, ht, hi]
+        | some x =>
+          cases x with
+          | list lc xs =>
+            have hsel := selectWhere_eq k2 f op2 v2 xs
+            cases he : (selectWhere k2 f (condTest op2 v2) xs).isEmpty <;> cases rl <;>
+              simp [sel2Gate, sel3Inner, selectWhere, hk, ht, hi, innerSelG, hsel, he, collect_true, collect_false]
+          | dict c2 kvs2 =>
+            cases hk2 : lookup k2 kvs2 with
+            | none => simp [sel2Gate, sel3Inner, selectWhere, hk, ht, hi, innerSelG, condOutcome, hk2]
+            | some kv2 =>
+              cases ht2 : condTest op2 v2 kv2 <;> cases hf : lookup f kvs2 <;>
+                simp [sel2Gate, sel3Inner, selectWhere, hk, ht, hi, innerSelG, condOutcome, hk2, ht2, hf]
+          | _ => simp [sel2Gate, sel3Inner, selectWhere, hk, ht, hi, innerSelG]
+  | _ => simp [sel2Gate, selectWhere]
+
+theorem chainedG_eq (rl : Bool) (k1 op1 : Str) (v1 : CondVal) (items k2 f op2 : Str) (v2 : CondVal) (rs : List Val) :
+    sel3Chained k1 op1 v1 items k2 f op2 v2 rl rs
+      = selectChainedG rl k1 items (condTest op1 v1) k2 f (condTest op2 v2) rs := by
+  unfold sel3Chained sel2Sel selectChainedG
+  induction rs with
+  | nil => rfl
+  | cons r rs ih =>
+    rw [List.map_cons, somes_cons_toList, ih, selectWhere_cons, List.filterMap_append, chainedG_head]
+
+/-- the values `selectWhere` returns for the field `items` are `items` values of records of `rs` -/
+theorem selectWhere_mem (k f : Str) (t : Val → Bool) (rs : List Val) (x : Val) (h : x ∈ selectWhere k f t rs) :
+    ∃ c kvs, Val.dict c kvs ∈ rs ∧ lookup f kvs = some x := by
+  induction rs with
+  | nil => simp [selectWhere] at h
+  | cons r rs ih =>
+    rw [selectWhere_cons, List.mem_append] at h
+    rcases h with h | h
+    · cases r with
+      | dict c kvs =>
+        cases hk : lookup k kvs with
+        | none => simp [selectWhere, hk] at h
+        | some kv =>
+          cases hf : lookup f kvs with
+          | none => simp [selectWhere, hk, hf] at h
+          | some fv =>
+            cases ht : t kv <;> simp [selectWhere, hk, hf, ht] at h
+            subst h
+            exact ⟨c, kvs, by simp, hf⟩
+      | _ => simp [selectWhere] at h
+    · obtain ⟨c, kvs, hm, hl⟩ := ih h
+      exact ⟨c, kvs, List.mem_cons_of_mem _ hm, hl⟩
+
+/-- with inner LISTS only, the `return_lists=True` contributions are the nested lists of `selectChained` -/
+theorem selectChainedG_lists (k1 items : Str) (t1 : Val → Bool) (k2 f v2 : Str) (t2 : Val → Bool) (rs : List Val)
+    (h : InnerLists items k2 v2 rs) : selectChainedG true k1 items t1 k2 f t2 rs = selectChained k1 items t1 k2 f t2 rs := by
+  unfold selectChainedG selectChained
+  apply sel3_filterMap_congr
+  intro x hx
+  obtain ⟨c, kvs, hm, hl⟩ := selectWhere_mem k1 items t1 rs x hx
+  obtain ⟨lc, xs, rfl, _, _⟩ := h c kvs x hm hl
+  simp [innerSelG, innerSel]
+
+/-- **C06 (predicates, any spelling, token level).**  `toksP` is any token list that spells the position of the
+list of dict records (key steps plain names, index steps in any spelling: `Sel3Spells`).  Then `_find` on
+`toksP ++ ["[k op v]", f]`, on `toksP ++ ["k[text() op v]", "..", f]` and — when `toksP` ends in a key token
+`name` — on `… "name[k op v]", f` finds exactly `selectWhere k f (condTest op v) rs` (a miss when empty), for both
+values of `return_lists`; the tree is unchanged.  (The `'..'` step re-resolves the text the walk has written:
+evaluated indexes, so `a[last()]` comes back as `/a[-1]` — `Sel3Norm`, `sel3_up_record`.) -/
+theorem C06_pred_spelled (t : Val) (rl : Bool) (toksP : List Str) (p : Pos) (lc : Cls) (rs : List Val) (k f opx op vq v : Str)
+    (hs : Sel3Spells toksP t p (.list lc rs)) (hk : FieldKey k) (hf : PlainKey f) (hop : OpSpell opx op) (hlit : LitSpell vq v)
+    (hv : PlainLit v) (hrs : ∀ r ∈ rs, isDict r = true) (hg : ComparableK k v rs)
+    (fuel : Nat) (hfuel : fuel ≥ 6 * toksP.length + rs.length + 14) :
+    (∀ tail ∈ [[bracket (k ++ opx ++ vq), f], [k ++ bracket (sTextFn ++ opx ++ vq), ['.', '.'], f]],
+      ∃ r, findD fuel t [] false true (toksP ++ tail) (.at []) rl slash = .ok (t, r) ∧
+        r.isFound = !(selectWhere k f (condTest op (.str v)) rs).isEmpty ∧
+        (r.isFound = true → r.value = collect rl (selectWhere k f (condTest op (.str v)) rs))) ∧
+    (∀ toks' name, toksP = toks' ++ [name] → PlainKey name →
+      ∃ r, findD fuel t [] false true (toks' ++ [name ++ bracket (k ++ opx ++ vq), f]) (.at []) rl slash = .ok (t, r) ∧
+        r.isFound = !(selectWhere k f (condTest op (.str v)) rs).isEmpty ∧
+        (r.isFound = true → r.value = collect rl (selectWhere k f (condTest op (.str v)) rs))) := by
+  have := sel3_pred_spelled t rl k f opx op vq v hs hk hf hop hlit hv hrs hg.guard fuel hfuel
+  simp only [selectWhere_eq] at this
+  exact this
+
+/-- **C06 (fan-out, any spelling, string level).**  For any spelling of a path that plain Python indexing follows
+from the root to the list of dict records `rs`, `P[*]/f` and the shorthand `P/f` return `[r[f] for r in rs if f in r]`
+through `get`, item access and `first`; the tree is unchanged. -/
+theorem C06_star_spellings_string (cls : Cls) (kvs : List (Str × Val)) (lead : Lead) (steps : List StepSp) (f : Str) (lc : Cls)
+    (rs : List Val) (d : Val) (hp : PlainSteps steps) (hne : steps ≠ [])
+    (hget : stepsGet (.dict cls kvs) steps = some (.list lc rs)) (hf : PlainKey f) (hrs : ∀ r ∈ rs, isDict r = true)
+    (fuel : Nat) (hfuel : fuel ≥ 2 * steps.length + rs.length + 5) :
+    ∀ xp ∈ [renderSp lead steps ++ bracket ['*'] ++ slash ++ f, renderSp lead steps ++ slash ++ f],
+      XPath.get fuel (.dict cls kvs) xp d = (.dict cls kvs, .ok (selected (selectF f rs) d)) ∧
+      getItem fuel (.dict cls kvs) xp = (.dict cls kvs, selectedItem (selectF f rs)) ∧
+      first fuel (.dict cls kvs) xp d = (.dict cls kvs, .ok (firstOf (selectF f rs) d)) := by
+  intro xp hxp
+  have := sel3_star_string cls kvs lead steps f lc rs d hp hne hget hf hrs fuel hfuel xp hxp
+  simp only [selectF_eq] at this
+  exact this
+
+/-- **C06 (predicates, any spelling, string level).**  `steps` is any spelling of a path that plain Python indexing
+follows from the root to the list of dict records `rs` (`stepsGet`); `renderSp lead steps` its text with prefix none,
+`/` or `//`.  Then `P[k op v]/f` and `P/k[text() op v]/../f` return `f` of exactly the records whose `k` passes the
+comparison, through `get`, item access and `first`; the tree is unchanged. -/
+theorem C06_pred_spellings_string (cls : Cls) (kvs : List (Str × Val)) (lead : Lead) (steps : List StepSp)
+    (k f opx op vq v : Str) (lc : Cls) (rs : List Val) (d : Val) (hp : PlainSteps steps) (hne : steps ≠ [])
+    (hget : stepsGet (.dict cls kvs) steps = some (.list lc rs)) (hk : FieldKey k) (hf : PlainKey f) (hop : OpSpell opx op)
+    (hlit : LitSpell vq v) (hv : PlainLit v) (hrs : ∀ r ∈ rs, isDict r = true) (hg : ComparableK k v rs)
+    (fuel : Nat) (hfuel : fuel ≥ 6 * steps.length + rs.length + 14) :
+    ∀ xp ∈ [renderSp lead steps ++ bracket (k ++ opx ++ vq) ++ slash ++ f,
+            renderSp lead steps ++ slash ++ k ++ bracket (sTextFn ++ opx ++ vq) ++ slash ++ ['.', '.'] ++ slash ++ f],
+      XPath.get fuel (.dict cls kvs) xp d
+        = (.dict cls kvs, .ok (selected (selectWhere k f (condTest op (.str v)) rs) d)) ∧
+      getItem fuel (.dict cls kvs) xp = (.dict cls kvs, selectedItem (selectWhere k f (condTest op (.str v)) rs)) ∧
+      first fuel (.dict cls kvs) xp d = (.dict cls kvs, .ok (firstOf (selectWhere k f (condTest op (.str v)) rs) d)) := by
+  intro xp hxp
+  have := sel3_pred_string cls kvs lead steps k f opx op vq v lc rs d hp hne hget hk hf hop hlit hv hrs hg.guard fuel hfuel xp hxp
+  simp only [selectWhere_eq] at this
+  exact this
+
+/-- **C06 (chained selections, any spelling, token level; `items` a list of records or one record).**  `_find` on
+`toksP ++ ["[k1 op v1]", "items[k2 op v2]", f]` (and on the merged `… "name[k1 op v1]", …` when `toksP` ends in a key
+token) finds exactly the per-parent contributions `selectChainedG rl …`, for both values of `return_lists`. -/
+theorem C06_chained_spelled (t : Val) (rl : Bool) (toksP : List Str) (p : Pos) (lc : Cls) (rs : List Val)
+    (k1 opx1 op1 vq1 v1 items k2 opx2 op2 vq2 v2 f : Str)
+    (hs : Sel3Spells toksP t p (.list lc rs)) (hk1 : FieldKey k1) (hop1 : OpSpell opx1 op1) (hlit1 : LitSpell vq1 v1)
+    (hv1 : PlainLit v1) (hitems : PlainKey items) (hk2 : FieldKey k2) (hop2 : OpSpell opx2 op2) (hlit2 : LitSpell vq2 v2)
+    (hv2 : PlainLit v2) (hf : PlainKey f) (hrs : ∀ r ∈ rs, isDict r = true) (hg : ComparableK k1 v1 rs)
+    (hin : InnerRecs items k2 v2 rs)
+    (fuel : Nat) (hfuel : fuel ≥ 10 * toksP.length + rs.length + (rs.map (sel2InnerLen items)).sum + 30) :
+    let vals := selectChainedG rl k1 items (condTest op1 (.str v1)) k2 f (condTest op2 (.str v2)) rs
+    (∃ r, findD fuel t [] false true (toksP ++ [bracket (k1 ++ opx1 ++ vq1), items ++ bracket (k2 ++ opx2 ++ vq2), f]) (.at []) rl slash
+        = .ok (t, r) ∧ r.isFound = !vals.isEmpty ∧ (r.isFound = true → r.value = collect rl vals)) ∧
+    (∀ toks' name, toksP = toks' ++ [name] → PlainKey name →
+      ∃ r, findD fuel t [] false true (toks' ++ [name ++ bracket (k1 ++ opx1 ++ vq1), items ++ bracket (k2 ++ opx2 ++ vq2), f])
+          (.at []) rl slash = .ok (t, r) ∧ r.isFound = !vals.isEmpty ∧ (r.isFound = true → r.value = collect rl vals)) := by
+  intro vals
+  have := sel3_chained_spelled t rl k1 opx1 op1 vq1 v1 items k2 opx2 op2 vq2 v2 f hs hk1 hop1 hlit1 hv1 hitems hk2 hop2 hlit2 hv2
+    hf hrs hg.guard hin.ok fuel hfuel
+  simp only [chainedG_eq] at this
+  exact this
+
+/-- **C06 (chained selections, any spelling, string level; `items` a list of records or one record).**
+`P[k1 op v1]/items[k2 op v2]/f` for any spelling of `P`: `get` and item access return the list of per-parent
+contributions (`selectChainedG true`: the nested list of per-parent selections when every `items` is a list —
+`selectChainedG_lists`), the default / `IndexError` when there is none; `first` returns `firstOf` of the
+`return_lists=False` contributions; the tree is unchanged. -/
+theorem C06_chained_spellings_string (cls : Cls) (kvs : List (Str × Val)) (lead : Lead) (steps : List StepSp)
+    (k1 opx1 op1 vq1 v1 items k2 opx2 op2 vq2 v2 f : Str) (lc : Cls) (rs : List Val) (d : Val)
+    (hp : PlainSteps steps) (hne : steps ≠ []) (hget : stepsGet (.dict cls kvs) steps = some (.list lc rs))
+    (hk1 : FieldKey k1) (hop1 : OpSpell opx1 op1) (hlit1 : LitSpell vq1 v1) (hv1 : PlainLit v1) (hitems : PlainKey items)
+    (hk2 : FieldKey k2) (hop2 : OpSpell opx2 op2) (hlit2 : LitSpell vq2 v2) (hv2 : PlainLit v2) (hf : PlainKey f)
+    (hrs : ∀ r ∈ rs, isDict r = true) (hg : ComparableK k1 v1 rs) (hin : InnerRecs items k2 v2 rs)
+    (fuel : Nat) (hfuel : fuel ≥ 10 * steps.length + rs.length + (rs.map (sel2InnerLen items)).sum + 30) :
+    let xp := renderSp lead steps ++ bracket (k1 ++ opx1 ++ vq1) ++ slash ++ items ++ bracket (k2 ++ opx2 ++ vq2) ++ slash ++ f
+    let valsT := selectChainedG true k1 items (condTest op1 (.str v1)) k2 f (condTest op2 (.str v2)) rs
+    let valsF := selectChainedG false k1 items (condTest op1 (.str v1)) k2 f (condTest op2 (.str v2)) rs
+    XPath.get fuel (.dict cls kvs) xp d = (.dict cls kvs, .ok (selected valsT d)) ∧
+    getItem fuel (.dict cls kvs) xp = (.dict cls kvs, selectedItem valsT) ∧
+    first fuel (.dict cls kvs) xp d = (.dict cls kvs, .ok (firstOf valsF d)) := by
+  intro xp valsT valsF
+  have := sel3_chained_string cls kvs lead steps k1 opx1 op1 vq1 v1 items k2 opx2 op2 vq2 v2 f lc rs d hp hne hget hk1 hop1 hlit1
+    hv1 hitems hk2 hop2 hlit2 hv2 hf hrs hg.guard hin.ok fuel hfuel
+  simp only [chainedG_eq] at this
+  exact this
+
+/-- **C06 (an inner `items` that is one record — the "hidden list").**  For the record list at any position `p`
+(canonical path `P`) whose records carry, under `items`, a list of dict records OR one dict record:
+`P[k1 op v1]/items[k2 op v2]/f` returns the per-parent contributions `selectChainedG` — a parent whose `items` is a
+list contributes the list of its selected values, a parent whose `items` is ONE record contributes that record's
+`f` itself (not a one-element list) when the record passes the inner test.  The matching elements are exactly the
+selected ones; only the nesting of a single-record parent is flat. -/
+theorem C06_chained_hidden (cls : Cls) (kvs : List (Str × Val)) (p : Pos)
+    (k1 opx1 op1 vq1 v1 items k2 opx2 op2 vq2 v2 f : Str) (lc : Cls) (rs : List Val) (d : Val)
+    (hp : PlainPos p) (hne : p ≠ []) (hk1 : FieldKey k1) (hop1 : OpSpell opx1 op1) (hlit1 : LitSpell vq1 v1) (hv1 : PlainLit v1)
+    (hitems : PlainKey items) (hk2 : FieldKey k2) (hop2 : OpSpell opx2 op2) (hlit2 : LitSpell vq2 v2) (hv2 : PlainLit v2)
+    (hf : PlainKey f) (hget : getAt (.dict cls kvs) p = some (.list lc rs)) (hrs : ∀ r ∈ rs, isDict r = true)
+    (hg : ComparableK k1 v1 rs) (hin : InnerRecs items k2 v2 rs) :
+    ∃ n, ∀ fuel ≥ n,
+      let xp := slash ++ renderPos p ++ bracket (k1 ++ opx1 ++ vq1) ++ slash ++ items ++ bracket (k2 ++ opx2 ++ vq2) ++ slash ++ f
+      let valsT := selectChainedG true k1 items (condTest op1 (.str v1)) k2 f (condTest op2 (.str v2)) rs
+      let valsF := selectChainedG false k1 items (condTest op1 (.str v1)) k2 f (condTest op2 (.str v2)) rs
+      XPath.get fuel (.dict cls kvs) xp d = (.dict cls kvs, .ok (selected valsT d)) ∧
+      getItem fuel (.dict cls kvs) xp = (.dict cls kvs, selectedItem valsT) ∧
+      first fuel (.dict cls kvs) xp d = (.dict cls kvs, .ok (firstOf valsF d)) := by
+  refine ⟨10 * p.length + rs.length + (rs.map (sel2InnerLen items)).sum + 30, fun fuel hfuel => ?_⟩
+  have := C06_chained_spellings_string cls kvs .two (sel3StepsOf p) k1 opx1 op1 vq1 v1 items k2 opx2 op2 vq2 v2 f lc rs d
+    (sel3_stepsOf_plain p hp) (by cases p with | nil => exact absurd rfl hne | cons s r => cases s <;> simp [sel3StepsOf])
+    (sel3_stepsOf_get p _ _ hget) hk1 hop1 hlit1 hv1 hitems hk2 hop2 hlit2 hv2 hf hrs hg hin fuel
+    (by rw [sel3_stepsOf_length]; exact hfuel)
+  rw [sel3_stepsOf_canon cls kvs p _ hne hget] at this
+  exact this
+
+/-- when `items` is never a list — every outer record that has it has ONE dict record there — the chained
+selection is flat: `[r[items][f] for r in rs if r passes, has items, r[items] passes and has f]` -/
+theorem C06_chained_hidden_flat (rl : Bool) (k1 items : Str) (t1 : Val → Bool) (k2 f : Str) (t2 : Val → Bool) (rs : List Val)
+    (h : ∀ c kvs' x, Val.dict c kvs' ∈ rs → lookup items kvs' = some x → ∀ lc xs, x ≠ .list lc xs) :
+    selectChainedG rl k1 items t1 k2 f t2 rs = selectWhere k2 f t2 (selectWhere k1 items t1 rs) := by
+  unfold selectChainedG
+  have hall : ∀ x ∈ selectWhere k1 items t1 rs, ∀ lc xs, x ≠ .list lc xs := by
+    intro x hx
+    obtain ⟨c, kvs', hm, hl⟩ := selectWhere_mem k1 items t1 rs x hx
+    exact h c kvs' x hm hl
+  generalize selectWhere k1 items t1 rs = ys at hall
+  induction ys with
+  | nil => rfl
+  | cons y ys ih =>
+    have ih' := ih (fun x hx => hall x (List.mem_cons_of_mem _ hx))
+    rw [selectWhere_cons k2 f t2 y ys, List.filterMap_cons, ← ih']
+    cases y with
+    | list lc xs => exact absurd rfl (hall _ (by simp) lc xs)
+    | dict c kvs2 =>
+      cases hh : (selectWhere k2 f t2 [Val.dict c kvs2]).head? with
+      | none =>
+        have : selectWhere k2 f t2 [Val.dict c kvs2] = [] := by
+          cases hs : selectWhere k2 f t2 [Val.dict c kvs2] with
+          | nil => rfl
+          | cons a b => rw [hs] at hh; simp at hh
+        simp [innerSelG, this]
+      | some z =>
+        have : selectWhere k2 f t2 [Val.dict c kvs2] = [z] := by
+          cases hk : lookup k2 kvs2 with
+          | none => simp [selectWhere, hk] at hh
+          | some kv =>
+            cases hf : lookup f kvs2 with
+            | none => simp [selectWhere, hk, hf] at hh
+            | some fv =>
+              cases ht : t2 kv <;> simp [selectWhere, hk, hf, ht] at hh ⊢
+              exact hh
+        simp [innerSelG, this]
+    | _ => simp [innerSelG, selectWhere]
+
+/-- the per-parent selections of a chained lookup as Lean lists (inner LISTS of records) -/
+def innerList (k2 f : Str) (test2 : Val → Bool) : Val → Option (List Val)
+  | .list _ xs => if (selectWhere k2 f test2 xs).isEmpty then Option.none else some (selectWhere k2 f test2 xs)
+  | _ => Option.none
+
+def chainedLists (k1 items : Str) (test1 : Val → Bool) (k2 f : Str) (test2 : Val → Bool) (rs : List Val) : List (List Val) :=
+  (selectWhere k1 items test1 rs).filterMap (innerList k2 f test2)
+
+theorem chainedLists_true (k1 items : Str) (t1 : Val → Bool) (k2 f : Str) (t2 : Val → Bool) (rs : List Val) :
+    selectChained k1 items t1 k2 f t2 rs = (chainedLists k1 items t1 k2 f t2 rs).map (fun sel => Val.list .n0 sel) := by
+  unfold selectChained chainedLists
+  rw [List.map_filterMap]
+  apply sel3_filterMap_congr
+  intro x _
+  cases x with
+  | list lc xs => cases he : (selectWhere k2 f t2 xs).isEmpty <;> simp [innerSel, innerList, he]
+  | _ => simp [innerSel, innerList]
+
+theorem chainedLists_false (k1 items : Str) (t1 : Val → Bool) (k2 f v2 : Str) (t2 : Val → Bool) (rs : List Val)
+    (h : InnerLists items k2 v2 rs) :
+    selectChainedG false k1 items t1 k2 f t2 rs = (chainedLists k1 items t1 k2 f t2 rs).map single := by
+  unfold selectChainedG chainedLists
+  rw [List.map_filterMap]
+  apply sel3_filterMap_congr
+  intro x hx
+  obtain ⟨c, kvs, hm, hl⟩ := selectWhere_mem k1 items t1 rs x hx
+  obtain ⟨lc, xs, rfl, _, _⟩ := h c kvs x hm hl
+  cases he : (selectWhere k2 f t2 xs).isEmpty <;> simp [innerSelG, innerList, he]
+
+/-- **C06 (`first` on a chained selection).**  With `sels` = the per-parent selections (the non-empty lists
+`[it[f] for it in r[items] if …]` of the outer records that pass, in order — `chainedLists`, whose `.list`-wrapped
+form is what `get` returns: `chainedLists_true`), `first` returns `firstOf (sels.map single) d`: every parent's
+selection is replaced by its only element when it has exactly one (`return_lists=False` in the inner fan-out), then
+the outer list likewise, then `first`'s own last step unwraps a remaining one-element list.
+`C06_chained_first_cases` spells the cases out. -/
+theorem C06_chained_first (cls : Cls) (kvs : List (Str × Val)) (p : Pos)
+    (k1 opx1 op1 vq1 v1 items k2 opx2 op2 vq2 v2 f : Str) (lc : Cls) (rs : List Val) (d : Val)
+    (hp : PlainPos p) (hne : p ≠ []) (hk1 : FieldKey k1) (hop1 : OpSpell opx1 op1) (hlit1 : LitSpell vq1 v1) (hv1 : PlainLit v1)
+    (hitems : PlainKey items) (hk2 : FieldKey k2) (hop2 : OpSpell opx2 op2) (hlit2 : LitSpell vq2 v2) (hv2 : PlainLit v2)
+    (hf : PlainKey f) (hget : getAt (.dict cls kvs) p = some (.list lc rs)) (hrs : ∀ r ∈ rs, isDict r = true)
+    (hg : ComparableK k1 v1 rs) (hin : InnerLists items k2 v2 rs) :
+    ∃ n, ∀ fuel ≥ n,
+      let xp := slash ++ renderPos p ++ bracket (k1 ++ opx1 ++ vq1) ++ slash ++ items ++ bracket (k2 ++ opx2 ++ vq2) ++ slash ++ f
+      let sels := chainedLists k1 items (condTest op1 (.str v1)) k2 f (condTest op2 (.str v2)) rs
+      first fuel (.dict cls kvs) xp d = (.dict cls kvs, .ok (firstOf (sels.map single) d)) := by
+  obtain ⟨n, h⟩ := C06_chained_hidden cls kvs p k1 opx1 op1 vq1 v1 items k2 opx2 op2 vq2 v2 f lc rs d hp hne hk1 hop1 hlit1 hv1
+    hitems hk2 hop2 hlit2 hv2 hf hget hrs hg hin.recs
+  refine ⟨n, fun fuel hfuel => ?_⟩
+  have := (h fuel hfuel).2.2
+  rw [chainedLists_false _ _ _ _ _ v2 _ _ hin] at this
+  exact this
+
+/-- what `first` makes of the per-parent selections `sels` (all non-empty): nothing selected → the default
+(unwrapped if it is a one-element list); exactly one parent selecting exactly one record → that value (unwrapped
+once more if it is itself a one-element list: three levels in all); exactly one parent selecting several → the list
+of them (ONE level: the parent level is gone); several parents → the list of per-parent results, a parent with one
+selected record represented by the bare value, the others by their lists -/
+theorem C06_chained_first_cases (sels : List (List Val)) (d x : Val) (xs : List Val) :
+    (sels = [] → firstOf (sels.map single) d = unwrap1 d) ∧
+    (sels = [[x]] → firstOf (sels.map single) d = unwrap1 x) ∧
+    (sels = [xs] → xs.length ≥ 2 → firstOf (sels.map single) d = .list .n0 xs) ∧
+    (sels.length ≥ 2 → firstOf (sels.map single) d = .list .n0 (sels.map single)) := by
+  refine ⟨?_, ?_, ?_, ?_⟩
+  · rintro rfl; rfl
+  · rintro rfl; rfl
+  · rintro rfl hlen
+    match xs, hlen with
+    | a :: b :: r, _ => rfl
+  · intro hlen
+    match sels, hlen with
+    | a :: b :: r, _ => rfl
+
 /-! ## non-vacuity -/
 
 def recs : Val :=
@@ -648,6 +1013,193 @@ theorem C06_empty_inner_example :
       = .ok (.list .n0 [.list .n0 [.str ['3']]])
     ∧ (XPath.get 80 ordersEmptyInner ['e', '[', 'i', '=', '1', ']', '/', 'q'] (.str ['D'])).2 = .ok (.str ['D'])
     ∧ (XPath.getItem 80 ordersEmptyInner ['e', '[', 'i', '=', '1', ']', '/', 'q']).2 = .error .IndexError := by
+  decide +kernel
+
+/-! ### non-vacuity: other spellings, `first` on chained selections, hidden lists -/
+
+theorem plainKey_a : PlainKey ['a'] := ⟨by decide, by decide, by decide⟩
+theorem plainKey_w : PlainKey ['w'] := ⟨by decide, by decide, by decide⟩
+theorem plainLit_1' : PlainLit ['1'] := plainLit_1
+
+/-- `a[-1]` spells the position `/a[1]` of the record list of `deep` (a two-element list) -/
+def deepToks : List Str := [['a'] ++ bracket (IdxSp.neg 1).text]
+example : deepToks = [['a', '[', '-', '1', ']']] := by decide
+theorem deep_spelled : Sel3Spells deepToks deep [.key ['a'], .idx 1] (.list .plain recsList) :=
+  .keyIdx ((IdxSp.neg 1).keyIdxTok plainKey_a) plainKey_a rfl (by decide) rfl (.nil _)
+
+/-- `C06_pred_spelled`: the tokens `a[-1]`, `[k='1']`, `f`, and `a[-1]`, `k[text()='1']`, `..`, `f` -/
+example : ∀ tail ∈ [[bracket (['k'] ++ ['='] ++ ['\'', '1', '\'']), ['f']],
+                    [['k'] ++ bracket (sTextFn ++ ['='] ++ ['\'', '1', '\'']), ['.', '.'], ['f']]],
+    ∃ r, findD 40 deep [] false true (deepToks ++ tail) (.at []) true slash = .ok (deep, r) ∧
+      r.value = .list .n0 [.str ['x'], .str ['y']] := by
+  intro tail htail
+  obtain ⟨r, hr, hf, hv⟩ := (C06_pred_spelled deep true deepToks _ _ recsList ['k'] ['f'] ['='] _ _ ['1'] deep_spelled fieldKey_k
+    plainKey_f .eq1 (.sq ['1']) plainLit_1 (by decide) (by decide) 40 (by decide)).1 tail htail
+  rw [show selectWhere ['k'] ['f'] (condTest ['=', '='] (.str ['1'])) recsList = [.str ['x'], .str ['y']] by decide] at hf hv
+  exact ⟨r, hr, hv (by simpa using hf)⟩
+
+/-- the spelling `a/[0+1]` (relative, the index a step of its own, written as a sum) -/
+def deepSteps : List StepSp := [.key ['a'], .idx (.plus 0 1) true]
+example : renderSp .rel deepSteps = ['a', '/', '[', '0', '+', '1', ']'] := by decide
+example : renderSp .two deepSteps = ['/', '/', 'a', '/', '[', '0', '+', '1', ']'] := by decide
+
+/-- `C06_pred_spellings_string` on it: `a/[0+1][k='1']/f` and `a/[0+1]/k[text()='1']/../f` -/
+example : ∀ xp ∈ [renderSp .rel deepSteps ++ bracket (['k'] ++ ['='] ++ ['\'', '1', '\'']) ++ slash ++ ['f'],
+                  renderSp .rel deepSteps ++ slash ++ ['k'] ++ bracket (sTextFn ++ ['='] ++ ['\'', '1', '\'']) ++ slash ++ ['.', '.'] ++ slash ++ ['f']],
+    XPath.get 40 deep xp .none = (deep, .ok (.list .n0 [.str ['x'], .str ['y']])) := by
+  intro xp hxp
+  have := (C06_pred_spellings_string .n0 [(['a'], .list .plain [.str ['p'], .list .plain recsList])] .rel deepSteps ['k'] ['f'] ['='] _ _
+    ['1'] .plain recsList .none ⟨plainKey_a, trivial⟩ (by simp [deepSteps]) (by decide) fieldKey_k plainKey_f .eq1 (.sq ['1'])
+    plainLit_1 (by decide) (by decide) 40 (by decide) xp hxp).1
+  rw [show selectWhere ['k'] ['f'] (condTest ['=', '='] (.str ['1'])) recsList = [.str ['x'], .str ['y']] by decide] at this
+  exact this
+
+/-- `C06_star_spellings_string`: `a/[0+1][*]/f` and `a/[0+1]/f` -/
+example : ∀ xp ∈ [renderSp .rel deepSteps ++ bracket ['*'] ++ slash ++ ['f'], renderSp .rel deepSteps ++ slash ++ ['f']],
+    XPath.get 40 deep xp .none = (deep, .ok (.list .n0 [.str ['x'], .str ['y']])) := by
+  intro xp hxp
+  exact ((C06_star_spellings_string .n0 [(['a'], .list .plain [.str ['p'], .list .plain recsList])] .rel deepSteps ['f'] .plain
+    recsList .none ⟨plainKey_a, trivial⟩ (by simp [deepSteps]) (by decide) plainKey_f (by decide) 40 (by decide)) xp hxp).1
+
+/-- the same through the model, spellings `a[-1]`, `/a/[last()]`, `//a[1+0]`, text form included -/
+example : (XPath.get 60 deep ['a', '[', '-', '1', ']', '[', 'k', '=', '1', ']', '/', 'f'] .none).2
+    = .ok (.list .n0 [.str ['x'], .str ['y']]) := by decide +kernel
+example : (XPath.get 60 deep ['/', 'a', '/', '[', 'l', 'a', 's', 't', '(', ')', ']', '/', 'k', '[', 't', 'e', 'x', 't', '(', ')', '=', '1', ']',
+    '/', '.', '.', '/', 'f'] .none).2 = .ok (.list .n0 [.str ['x'], .str ['y']]) := by decide +kernel
+
+/-- outer records whose `t` is a LIST of records or ONE record (hidden list), two levels down -/
+def ordersMixedList : List Val :=
+  [.dict .plain [(['i'], .str ['1']), (['t'], .dict .plain [(['s'], .str ['B']), (['q'], .str ['3'])])],
+   .dict .plain [(['i'], .str ['1']), (['t'], .list .plain [.dict .plain [(['s'], .str ['B']), (['q'], .str ['4'])],
+                                                              .dict .plain [(['s'], .str ['B']), (['q'], .str ['5'])]])],
+   .dict .plain [(['i'], .str ['1']), (['t'], .dict .plain [(['s'], .str ['C']), (['q'], .str ['6'])])],
+   .dict .plain [(['i'], .str ['2']), (['t'], .dict .plain [(['s'], .str ['B']), (['q'], .str ['9'])])],
+   .dict .plain [(['i'], .str ['1']), (['t'], .list .plain [.dict .plain [(['s'], .str ['B']), (['q'], .str ['7'])]])]]
+def ordersMixedKvs : List (Str × Val) := [(['w'], .list .plain [.str ['p'], .list .plain ordersMixedList])]
+def ordersMixed : Val := .dict .n0 ordersMixedKvs
+
+theorem ordersMixed_inner : InnerRecs ['t'] ['s'] ['B'] ordersMixedList := by
+  intro c kvs' x hm hl
+  simp only [ordersMixedList, List.mem_cons, List.not_mem_nil, or_false, Val.dict.injEq] at hm
+  rcases hm with ⟨_, rfl⟩ | ⟨_, rfl⟩ | ⟨_, rfl⟩ | ⟨_, rfl⟩ | ⟨_, rfl⟩ <;>
+    (simp [lookup] at hl; subst hl
+     first
+       | exact Or.inl ⟨_, _, rfl, by decide, by decide⟩
+       | exact Or.inr ⟨_, _, rfl, by decide⟩)
+
+/-- the reference results: a single-record parent contributes the bare value, a list parent its list; under
+`return_lists=False` (`first`) a one-element list parent contributes the bare value too -/
+example : selectChainedG true ['i'] ['t'] (fieldEq ['1']) ['s'] ['q'] (fieldEq ['B']) ordersMixedList
+    = [.str ['3'], .list .n0 [.str ['4'], .str ['5']], .list .n0 [.str ['7']]] := by decide
+example : selectChainedG false ['i'] ['t'] (fieldEq ['1']) ['s'] ['q'] (fieldEq ['B']) ordersMixedList
+    = [.str ['3'], .list .n0 [.str ['4'], .str ['5']], .str ['7']] := by decide
+
+/-- `C06_chained_hidden` on that tree: `//w[1][i=1]/t[s=B]/q` -/
+example : ∃ n, ∀ fuel ≥ n,
+    XPath.get fuel ordersMixed ['/', '/', 'w', '[', '1', ']', '[', 'i', '=', '1', ']', '/', 't', '[', 's', '=', 'B', ']', '/', 'q'] .none
+      = (ordersMixed, .ok (.list .n0 [.str ['3'], .list .n0 [.str ['4'], .str ['5']], .list .n0 [.str ['7']]])) ∧
+    XPath.first fuel ordersMixed ['/', '/', 'w', '[', '1', ']', '[', 'i', '=', '1', ']', '/', 't', '[', 's', '=', 'B', ']', '/', 'q'] .none
+      = (ordersMixed, .ok (.list .n0 [.str ['3'], .list .n0 [.str ['4'], .str ['5']], .str ['7']])) := by
+  obtain ⟨n, h⟩ := C06_chained_hidden .n0 ordersMixedKvs [.key ['w'], .idx 1] ['i'] ['='] _ ['1'] ['1'] ['t'] ['s'] ['='] _ ['B'] ['B']
+    ['q'] .plain ordersMixedList .none ⟨plainKey_w, trivial⟩ (by simp) fieldKey_i .eq1 (.bare _) plainLit_1 plainKey_t fieldKey_s .eq1
+    (.bare _) plainLit_B plainKey_q rfl (by decide) (by decide) ordersMixed_inner
+  refine ⟨n, fun fuel hf => ?_⟩
+  have h1 := (h fuel hf).1
+  have h3 := (h fuel hf).2.2
+  rw [show selectChainedG true ['i'] ['t'] (condTest ['=', '='] (.str ['1'])) ['s'] ['q'] (condTest ['=', '='] (.str ['B'])) ordersMixedList
+      = [.str ['3'], .list .n0 [.str ['4'], .str ['5']], .list .n0 [.str ['7']]] by decide] at h1
+  rw [show selectChainedG false ['i'] ['t'] (condTest ['=', '='] (.str ['1'])) ['s'] ['q'] (condTest ['=', '='] (.str ['B'])) ordersMixedList
+      = [.str ['3'], .list .n0 [.str ['4'], .str ['5']], .str ['7']] by decide] at h3
+  exact ⟨h1, h3⟩
+
+/-- `C06_chained_spellings_string` on it with the spelling `/w[-1]` -/
+def mixedSteps : List StepSp := [.key ['w'], .idx (.neg 1) false]
+example : renderSp .one mixedSteps = ['/', 'w', '[', '-', '1', ']'] := by decide
+example : XPath.get 90 ordersMixed
+    (renderSp .one mixedSteps ++ bracket (['i'] ++ ['='] ++ ['1']) ++ slash ++ ['t'] ++ bracket (['s'] ++ ['='] ++ ['B']) ++ slash ++ ['q']) .none
+      = (ordersMixed, .ok (.list .n0 [.str ['3'], .list .n0 [.str ['4'], .str ['5']], .list .n0 [.str ['7']]])) := by
+  have := (C06_chained_spellings_string .n0 ordersMixedKvs .one mixedSteps ['i'] ['='] _ ['1'] ['1'] ['t'] ['s'] ['='] _ ['B'] ['B']
+    ['q'] .plain ordersMixedList .none ⟨plainKey_w, trivial⟩ (by simp [mixedSteps]) (by decide) fieldKey_i .eq1 (.bare _) plainLit_1
+    plainKey_t fieldKey_s .eq1 (.bare _) plainLit_B plainKey_q (by decide) (by decide) ordersMixed_inner 90 (by decide)).1
+  rw [show selectChainedG true ['i'] ['t'] (condTest ['=', '='] (.str ['1'])) ['s'] ['q'] (condTest ['=', '='] (.str ['B'])) ordersMixedList
+      = [.str ['3'], .list .n0 [.str ['4'], .str ['5']], .list .n0 [.str ['7']]] by decide] at this
+  exact this
+
+/-- `C06_chained_spelled` (token level) on it: `w[-1]`, `[i=1]`, `t[s=B]`, `q`, `return_lists=False` -/
+def mixedToks : List Str := [['w'] ++ bracket (IdxSp.neg 1).text]
+theorem mixed_spelled : Sel3Spells mixedToks ordersMixed [.key ['w'], .idx 1] (.list .plain ordersMixedList) :=
+  .keyIdx ((IdxSp.neg 1).keyIdxTok plainKey_w) plainKey_w rfl (by decide) rfl (.nil _)
+example : ∃ r, findD 90 ordersMixed [] false true
+      (mixedToks ++ [bracket (['i'] ++ ['='] ++ ['1']), ['t'] ++ bracket (['s'] ++ ['='] ++ ['B']), ['q']]) (.at []) false slash
+      = .ok (ordersMixed, r) ∧ r.value = .list .n0 [.str ['3'], .list .n0 [.str ['4'], .str ['5']], .str ['7']] := by
+  obtain ⟨r, hr, hf, hv⟩ := (C06_chained_spelled ordersMixed false mixedToks _ _ ordersMixedList ['i'] ['='] _ ['1'] ['1'] ['t'] ['s']
+    ['='] _ ['B'] ['B'] ['q'] mixed_spelled fieldKey_i .eq1 (.bare _) plainLit_1 plainKey_t fieldKey_s .eq1 (.bare _) plainLit_B
+    plainKey_q (by decide) (by decide) ordersMixed_inner 90 (by decide)).1
+  rw [show selectChainedG false ['i'] ['t'] (condTest ['=', '='] (.str ['1'])) ['s'] ['q'] (condTest ['=', '='] (.str ['B'])) ordersMixedList
+      = [.str ['3'], .list .n0 [.str ['4'], .str ['5']], .str ['7']] by decide] at hf hv
+  exact ⟨r, hr, hv (by simpa using hf)⟩
+
+/-- `C06_chained_hidden_flat`: when every `t` is one record the result is the flat list of the matching ones -/
+def ordersDictsList : List Val :=
+  [.dict .plain [(['i'], .str ['1']), (['t'], .dict .plain [(['s'], .str ['B']), (['q'], .str ['3'])])],
+   .dict .plain [(['i'], .str ['1']), (['t'], .dict .plain [(['s'], .str ['C']), (['q'], .str ['6'])])],
+   .dict .plain [(['i'], .str ['1'])],
+   .dict .plain [(['i'], .str ['1']), (['t'], .dict .plain [(['s'], .str ['B']), (['q'], .str ['8'])])]]
+example : selectChainedG true ['i'] ['t'] (fieldEq ['1']) ['s'] ['q'] (fieldEq ['B']) ordersDictsList = [.str ['3'], .str ['8']] :=
+  (C06_chained_hidden_flat true ['i'] ['t'] _ ['s'] ['q'] _ ordersDictsList (by
+    intro c kvs' x hm hl lc xs
+    simp only [ordersDictsList, List.mem_cons, List.not_mem_nil, or_false, Val.dict.injEq] at hm
+    rcases hm with ⟨_, rfl⟩ | ⟨_, rfl⟩ | ⟨_, rfl⟩ | ⟨_, rfl⟩ <;> (simp [lookup] at hl; try (subst hl; simp)))).trans (by decide)
+
+/-- `C06_chained_first` on `orders` (inner lists): the per-parent selections are `[['3'], ['6','7']]`; `first` returns
+`['3', ['6','7']]` — the one-record parent as the bare value -/
+example : chainedLists ['i'] ['t'] (fieldEq ['2']) ['s'] ['q'] (fieldEq ['B']) ordersList = [[.str ['3']], [.str ['6'], .str ['7']]] := by
+  decide
+theorem orders_inner : InnerLists ['t'] ['s'] ['B'] ordersList := by
+  intro c kvs' x hm hl
+  simp only [ordersList, List.mem_cons, List.not_mem_nil, or_false, Val.dict.injEq] at hm
+  rcases hm with ⟨_, rfl⟩ | ⟨_, rfl⟩ | ⟨_, rfl⟩ | ⟨_, rfl⟩ | ⟨_, rfl⟩ | ⟨_, rfl⟩ <;>
+    (first
+      | (simp [lookup] at hl; done)
+      | (simp [lookup] at hl; subst hl; exact ⟨_, _, rfl, by decide, by decide⟩))
+example : ∃ n, ∀ fuel ≥ n,
+    XPath.first fuel orders ['/', '/', 'o', '[', 'i', '=', '2', ']', '/', 't', '[', 's', '=', 'B', ']', '/', 'q'] .none
+      = (orders, .ok (.list .n0 [.str ['3'], .list .n0 [.str ['6'], .str ['7']]])) := by
+  obtain ⟨n, h⟩ := C06_chained_first .n0 [(['o'], .list .plain ordersList)] [.key ['o']] ['i'] ['='] _ ['2'] ['2'] ['t'] ['s']
+    ['='] _ ['B'] ['B'] ['q'] .plain ordersList .none ⟨⟨by decide, by decide, by decide⟩, trivial⟩ (by simp) fieldKey_i .eq1
+    (.bare _) plainLit_2 plainKey_t fieldKey_s .eq1 (.bare _) plainLit_B plainKey_q rfl (by decide) (by decide) orders_inner
+  refine ⟨n, fun fuel hf => ?_⟩
+  have := h fuel hf
+  rw [show chainedLists ['i'] ['t'] (condTest ['=', '='] (.str ['2'])) ['s'] ['q'] (condTest ['=', '='] (.str ['B'])) ordersList
+      = [[.str ['3']], [.str ['6'], .str ['7']]] by decide] at this
+  exact this
+
+/-- the four cases of `C06_chained_first_cases` through the model: no match, one parent / one record (three levels
+unwrapped), one parent / two records (one level), several parents -/
+example : (XPath.first 80 orders ['o', '[', 'i', '=', '9', ']', '/', 't', '[', 's', '=', 'B', ']', '/', 'q'] (.str ['D'])).2 = .ok (.str ['D']) := by
+  decide +kernel
+example : (XPath.first 80 orders ['o', '[', 'i', '=', '1', ']', '/', 't', '[', 's', '=', 'B', ']', '/', 'q'] .none).2 = .ok (.str ['2']) := by
+  decide +kernel
+example : (XPath.first 80 orders ['o', '[', 'i', '=', '2', ']', '/', 't', '[', 's', '=', 'C', ']', '/', 'q'] .none).2 = .ok (.str ['4']) := by
+  decide +kernel
+example : (XPath.first 80 orders ['o', '[', 'i', '=', '2', ']', '/', 't', '[', 'q', '~', '\'', '\'', ']', '/', 'q'] .none).2
+    = .ok (.list .n0 [.list .n0 [.str ['3'], .str ['4']], .str ['5'], .list .n0 [.str ['6'], .str ['7']]]) := by
+  decide +kernel
+example : firstOf ([[Val.str ['3']]].map single) Val.none = .str ['3'] := (C06_chained_first_cases _ _ _ []).2.1 rfl
+example : firstOf ([[Val.str ['3'], .str ['4']]].map single) Val.none = .list .n0 [.str ['3'], .str ['4']] :=
+  (C06_chained_first_cases _ _ (.str ['3']) _).2.2.1 rfl (by decide)
+
+/-- observation (outside `InnerRecs`, hence outside the theorems; the property speaks of LISTS OF RECORDS): an outer
+record whose `t` is a scalar makes the inner predicate step raise `IndexError` ("must be n0dict"), which leaves the
+fan-out loop: the whole lookup is a miss although the second order has a matching record -/
+def ordersScalarInner : Val :=
+  .dict .n0 [(['o'], .list .plain [
+    .dict .plain [(['i'], .str ['1']), (['t'], .str ['x'])],
+    .dict .plain [(['i'], .str ['1']), (['t'], .list .plain [.dict .plain [(['s'], .str ['B']), (['q'], .str ['4'])]])]])]
+example : (XPath.get 80 ordersScalarInner ['o', '[', 'i', '=', '1', ']', '/', 't', '[', 's', '=', 'B', ']', '/', 'q'] (.str ['D'])).2
+      = .ok (.str ['D'])
+    ∧ (XPath.getItem 80 ordersScalarInner ['o', '[', 'i', '=', '1', ']', '/', 't', '[', 's', '=', 'B', ']', '/', 'q']).2
+      = .error .IndexError := by
   decide +kernel
 
 end N0.C06
